@@ -111,6 +111,14 @@ Theorem C16_hypotheses_decidable : forall c gs root, hyps_ok c gs root = true ->
 Proof. exact hyps_ok_sound. Qed.
 Print Assumptions C16_hypotheses_decidable.
 
+(* no hidden state: when the table regenerated from nml.py passes writes_ok (instance obligation
+   Inst_C16_writes.v, every run), each lookup / query / sectioning method of Cell is present and writes no attribute of
+   self other than the two documented caches *)
+Theorem C16_no_hidden_state : forall t, writes_ok t = true ->
+  forall m, In m tracked_methods -> exists ws, slookup t m = Some ws /\ forall w, In w ws -> In w (allowed_writes m).
+Proof. exact writes_ok_sound. Qed.
+Print Assumptions C16_no_hidden_state.
+
 Theorem C16_domain_inhabited : all_ok MorphP5.ex_cell.
 Proof. exact ex_all_ok. Qed.
 Print Assumptions C16_domain_inhabited.
